@@ -244,16 +244,28 @@ func c17Selection(c *Ctx) {
 		m.Models["github.com/gobwas/httphead.ScanOptions"] = func(cl *fold.Call) fold.Val {
 			mm := cl.M
 			mm.Emit(fold.Effect{Kind: "call", Name: "ScanOptions", Args: cl.Args[:1]})
-			name := fold.SymSeq{Name: "selected[name]", Len: fold.Range(1, 100)}
-			attr := fold.SymSeq{Name: "selected[attr]", Len: fold.Range(1, 100)}
-			val := fold.SymSeq{Name: "selected[val]", Len: fold.Range(0, 100)}
-			mm.CallValue(cl.Args[1], []fold.Val{fold.K(0), name, attr, val}, 1)
+			// two options in the server's list: the first with a parameter, the second without
+			seq := func(n string) fold.SymSeq { return fold.SymSeq{Name: n, Len: fold.Range(1, 100), NonNil: true} }
+			r := mm.CallValue(cl.Args[1], []fold.Val{fold.K(0), seq("selected[name0]"), seq("selected[attr0]"), seq("selected[val0]")}, 1)
+			if fold.Show(r) == "0" || true {
+				r = mm.CallValue(cl.Args[1], []fold.Val{fold.K(1), seq("selected[name1]"), fold.Nil{}, fold.Nil{}}, 1)
+			}
+			_ = r
 			return fold.Bool(mm.Choose("wellformed", 2) == 1)
 		}
+		paramContent := func(mm *fold.Machine, v fold.Val) string {
+			if r, ok := v.(fold.Ref); ok {
+				v = mm.Load(r)
+			}
+			if sy, ok := v.(fold.Sym); ok && strings.HasPrefix(sy.Name, "params:") {
+				return sy.Name
+			}
+			return "params:"
+		}
 		m.Models["(*github.com/gobwas/httphead.Parameters).Set"] = func(cl *fold.Call) fold.Val {
-			cl.M.Emit(fold.Effect{Kind: "call", Name: "Parameters.Set", Args: cl.Args[1:]})
 			r, _ := cl.Args[0].(fold.Ref)
-			cl.M.Store(r, fold.Sym{Name: "params-aliasing-selected"})
+			cur := paramContent(cl.M, r)
+			cl.M.Store(r, fold.Sym{Name: cur + fold.Show(cl.Args[1]) + ";"})
 			return fold.Bool(true)
 		}
 		m.Models["(*github.com/gobwas/httphead.Parameters).Size"] = func(cl *fold.Call) fold.Val {
@@ -261,43 +273,58 @@ func c17Selection(c *Ctx) {
 		}
 		m.Models["(*github.com/gobwas/httphead.Parameters).Copy"] = func(cl *fold.Call) fold.Val {
 			cl.M.Emit(fold.Effect{Kind: "call", Name: "Parameters.Copy", Args: cl.Args})
-			return fold.Tuple{fold.Sym{Name: "params-copy-into(" + fold.Show(cl.Args[1]) + ")"}, fold.SymSeq{Name: "rest", Len: fold.Range(0, 100)}}
+			return fold.Tuple{fold.Sym{Name: "copy-into(" + fold.Show(cl.Args[1]) + ") of " + paramContent(cl.M, cl.Args[0])}, fold.SymSeq{Name: "rest", Len: fold.Range(0, 100)}}
 		}
 		m.Models["bytes.Equal"] = func(cl *fold.Call) fold.Val {
-			return fold.Bool(cl.M.Choose("name-equal", 2) == 1)
+			// server option k names the k-th wanted extension
+			a, b := fold.Show(cl.Args[0]), fold.Show(cl.Args[1])
+			return fold.Bool(a[len(a)-2] == b[len(b)-1] || a[len(a)-1] == b[len(b)-2])
 		}
 		ps := m.Explore(f, func(mm *fold.Machine) []fold.Val {
-			w := fold.SymOfType("want", optT).(fold.Struct)
-			w.F[0] = fold.SymSeq{Name: "wanted-name", Len: fold.Range(1, 100)}
-			w.F[1] = fold.Sym{Name: "wanted-params"}
-			wanted := fold.SliceV{O: mm.NewObj("wanted", fold.Arr{E: []fold.Val{w}}), Len: 1, Cap: 1}
+			var ws []fold.Val
+			for i := 0; i < 2; i++ {
+				w := fold.SymOfType("want", optT).(fold.Struct)
+				w.F[0] = fold.SymSeq{Name: fmt.Sprintf("wanted-name%d", i), Len: fold.Range(1, 100), NonNil: true}
+				w.F[1] = fold.Sym{Name: fmt.Sprintf("wanted-params%d", i)}
+				ws = append(ws, w)
+			}
+			wanted := fold.SliceV{O: mm.NewObj("wanted", fold.Arr{E: ws}), Len: 2, Cap: 2}
 			return []fold.Val{fold.SymSeq{Name: "selected", Len: fold.Range(1, 1<<20)}, wanted, fold.Nil{}}
 		}, func(mm *fold.Machine, p *fold.Path) {
 			ret, _ := p.Ret.(fold.Tuple)
 			if len(ret) != 2 {
 				return
 			}
-			if c.errName(ret[1]) != "nil" {
-				return
-			}
-			s, ok := ret[0].(fold.SliceV)
-			if !ok {
-				if fold.Show(ret[0]) != "nil" {
-					problems = append(problems, "matched list is "+fold.Show(ret[0]))
+			if p.Chose("wellformed") != 1 {
+				if c.errName(ret[1]) == "nil" {
+					problems = append(problems, "a malformed extensions header is accepted")
 				}
 				return
 			}
-			for _, e := range mm.Elems(s) {
+			if c.errName(ret[1]) != "nil" {
+				problems = append(problems, "two requested extensions, both returned by the server, are refused: "+c.errName(ret[1]))
+				return
+			}
+			s, ok := ret[0].(fold.SliceV)
+			if !ok || s.Len != 2 {
+				problems = append(problems, "matched list is "+fold.Show(ret[0])+", want the two extensions the server returned")
+				return
+			}
+			for i, e := range mm.Elems(s) {
 				o, _ := e.(fold.Struct)
 				if len(o.F) < 2 {
 					continue
 				}
-				if fold.Show(o.F[0]) != "wanted-name" {
-					problems = append(problems, "a returned extension's name is "+fold.Show(o.F[0])+" (must come from the dialer's own list, not from the response buffer)")
+				if fold.Show(o.F[0]) != fmt.Sprintf("wanted-name%d", i) {
+					problems = append(problems, fmt.Sprintf("returned extension %d is named %s (must be the dialer's own name, in the server's order)", i, fold.Show(o.F[0])))
 				}
 				ps := fold.Show(o.F[1])
-				if !strings.HasPrefix(ps, "params-copy-into(make#") {
-					problems = append(problems, "a returned extension's parameters are "+ps+": they must be copied out of the response buffer into a fresh one")
+				wantP := "copy-into(make#" + fmt.Sprint(i+1) + ") of params:"
+				if i == 0 {
+					wantP += "selected[attr0];"
+				}
+				if ps != wantP {
+					problems = append(problems, fmt.Sprintf("parameters of returned extension %d are <%s>, want <%s>: each extension gets a fresh copy of exactly its own parameters", i, ps, wantP))
 				}
 			}
 		})
@@ -306,7 +333,7 @@ func c17Selection(c *Ctx) {
 				problems = append(problems, "undecided: "+p.Abort+panicNote(p))
 			}
 		}
-		c.verdict(rule, rule+"/matchSelectedExtensions", c.P.FuncPos(f), uniq(problems), "names from the wanted list; Parameters.Copy into a fresh buffer")
+		c.verdict(rule, rule+"/matchSelectedExtensions", c.P.FuncPos(f), uniq(problems), "two extensions: names from the wanted list; each gets a fresh copy of its own parameters only")
 	}
 }
 
